@@ -173,7 +173,7 @@ func goDump(files []srcFile, order []int) (out string) {
 					vs[i] = "COPY!" + vs[i]
 				}
 			}
-			items = append(items, m.Name+">"+ownerText(ms, m)+":"+id.Name+"="+strings.Join(vs, ","))
+			items = append(items, m.FullName()+">"+ownerText(ms, m)+":"+id.Name+"="+strings.Join(vs, ","))
 		}
 		var e *yang.Entry
 		for _, l := range m.Leaf {
